@@ -171,6 +171,9 @@ func c15Source(m *c15Mod, isMain bool, mainStmts []string) string {
 		}
 		if strings.HasPrefix(imp.Target, "@") {
 			q = "《" + imp.Target + "》"
+			if imp.As == "quoted" {
+				q = "“" + imp.Target + "”" // a library may also be named in ordinary quotes
+			}
 		}
 		if imp.Items != nil {
 			fmt.Fprintf(&sb, "导入%s的%s\n", q, strings.Join(imp.Items, "、"))
@@ -414,6 +417,13 @@ func runC15(t *zsim.Tape, cfg *hlib.Config) *hlib.Outcome {
 						im.Imports[i].As = strings.ReplaceAll(m.Name, "-", "/")
 					}
 				}
+			}
+		}
+	}
+	for _, im := range append([]*c15Mod{main}, sc.Mods...) {
+		for i := range im.Imports {
+			if strings.HasPrefix(im.Imports[i].Target, "@") && t.Draw(3) == 2 {
+				im.Imports[i].As = "quoted"
 			}
 		}
 	}
